@@ -306,7 +306,7 @@ pub fn check_text(text: &str, v: &J) -> CheckResult {
 // ---- generators --------------------------------------------------------------------------------
 
 fn json_string() -> impl Strategy<Value = String> {
-    prop_oneof![
+    crate::oneof![
         3 => "[a-z0-9_]{0,8}",
         3 => proptest::collection::vec(proptest::sample::select(vec![
             "a", "k", "1", " ", "  ", ":", ": ", "-", "- ", "#", " #", "'", "\"", "\\", "/", "[", "]", "{", "}", ",", "?", "&", "*", "!", "|", ">", "%", "@", "`",
@@ -320,10 +320,10 @@ fn json_string() -> impl Strategy<Value = String> {
 }
 
 fn json_number() -> impl Strategy<Value = J> {
-    prop_oneof![
-        3 => prop_oneof![any::<i64>(), -1000i64..1000, Just(i64::MAX), Just(i64::MIN), Just(0i64), Just(9007199254740993i64)].prop_map(|i| J::Int(i, false)),
+    crate::oneof![
+        3 => crate::oneof![any::<i64>(), -1000i64..1000, Just(i64::MAX), Just(i64::MIN), Just(0i64), Just(9007199254740993i64)].prop_map(|i| J::Int(i, false)),
         1 => Just(J::Int(0, true)),
-        2 => any::<f64>().prop_filter("finite", |f| f.is_finite()).prop_map(|f| J::Num(format!("{f:?}"))),
+        2 => crate::engine::any_f64().prop_filter("finite", |f| f.is_finite()).prop_map(|f| J::Num(format!("{f:?}"))),
         2 => (-100000i64..100000, 0u32..5).prop_map(|(i, d)| J::Num(format!("{:.*}", d.max(1) as usize, i as f64 / 10f64.powi(d as i32)))),
         2 => (proptest::sample::select(vec!["1", "0", "-1", "12", "-0", "5", "123456789"]), proptest::sample::select(vec!["e0", "E0", "e+2", "E-2", "e10", ".0", ".5", ".0e1", ".25E+3", "e-400", "e400", ".000"]))
             .prop_map(|(a, b)| J::Num(format!("{a}{b}"))),
@@ -332,7 +332,7 @@ fn json_number() -> impl Strategy<Value = J> {
 }
 
 fn json_leaf() -> impl Strategy<Value = J> {
-    prop_oneof![
+    crate::oneof![
         1 => Just(J::Null),
         1 => any::<bool>().prop_map(J::Bool),
         3 => json_number(),
@@ -346,8 +346,8 @@ fn dedup(pairs: Vec<(String, J)>) -> Vec<(String, J)> {
 }
 
 pub fn json_tree() -> impl Strategy<Value = J> {
-    json_leaf().prop_recursive(8, 48, 5, |inner| {
-        prop_oneof![
+    crate::engine::recursive(json_leaf().boxed(), 8, 48, 5, |inner| {
+        crate::oneof![
             proptest::collection::vec(inner.clone(), 0..5).prop_map(J::Arr),
             proptest::collection::vec((json_string(), inner.clone()), 0..5).prop_map(|p| J::Obj(dedup(p))),
         ]
